@@ -216,6 +216,10 @@ def gen_cfg0(ctx, thorough, far=False):
         warm = [[lmin + 1, lmin + 1 + span]] if (lmin == 1 or r.random() < 0.5) else [[lmin - 1, lmin - 1 + span]]
         if r.random() < 0.3:
             warm.insert(0, [1, 2])
+        if span >= 1 and r.random() < 0.5:      # same lmax, another lmin (and vice versa) right before the real request
+            warm.append([lmin + 1, lmin + span] if r.random() < 0.6 else [max(1, lmin - 1), lmin + span])
+        if r.random() < 0.25:
+            warm.append([lmin, lmin + span + 1])
         cfg["warm"] = warm
     return cfg
 
